@@ -16,6 +16,13 @@ E1 (bounded-exhaustive, real code against a plain-Python oracle):
      an index holding the whole alphabet, through NumericRange/DateRange,
      search() and the query parser; Term per value; lexicon / column / sort
      round trips through the sortable encodings.
+ (b') tiers: the same index-backed inclusive family (every start<=end pair
+     of the alphabet incl. unbounded ends) plus the lexicon / column / sort
+     round trips for EVERY remaining shift_step 1..8 on every width and
+     number type, so that the terms the indexing side writes per precision
+     tier and the tiers the query side asks for are compared for every step -
+     in particular the steps that do not divide the bit width (3, 5, 6, 7),
+     whose coarsest tier is a partial one.
  (c) domain: min-1, max+1, wrapping and overflowing values must be rejected
      at indexing time, by the field API, by NumericRange and by the parser.
 
@@ -512,6 +519,7 @@ def range_case(env, start, end, se, ee, path="docs"):
     extra = gs - yes - dc
     missing = yes - gs
     trivial = (not yes) or len(yes) == len(vals)
+    env.last_missing = [vals[i] for i in sorted(missing)]
     if not extra and not missing:
         return None, None, trivial
     k = "extra" if extra else "missing"
@@ -554,7 +562,47 @@ def range_sig(env, start, end, se, ee, path, kind, direct_ok=None):
         if kind.startswith("exc:error@fields.py:sortable_to_bytes"):
             kind = "unpackable"     # the same thing as seen by the pure check
         return "%s|%s" % (root, kind)
+    if kind == "missing":
+        absent = absent_tier(env, start, end, se, ee)
+        if absent is not None:
+            return "indexed-tiers|%s|%s" % (env.kind, absent)
     return "search|%s|%s" % (env.kind, kind)
+
+
+def tier_pieces(env, start, end, se, ee):
+    """the (a, b, shift) pieces of the (correct, see root_of) decomposition"""
+    from whoosh.util.numeric import tiered_ranges
+    from whoosh.util.times import datetime_to_long
+    field = env.field
+
+    def prep(v):
+        if v is None:
+            return None
+        return datetime_to_long(v) if env.kind == "dt" else field.prepare_number(v)
+    return list(tiered_ranges(field.numtype, env.bits, field.signed, prep(start), prep(end),
+                              env.step, se, ee))
+
+
+def absent_tier(env, start, end, se, ee):
+    """The decomposition of the interval is right but a document inside it was
+    not found: is the term of that document's value at the precision tier the
+    decomposition uses for it absent from the index?  Returns a root-cause
+    label (the indexing side did not write that tier) or None."""
+    try:
+        reader = env.s.reader()
+        pieces = tier_pieces(env, start, end, se, ee)
+        for v in getattr(env, "last_missing", ())[:4]:
+            x = sortable_of(env.cfg, env.field, v)
+            for a, b, sh in pieces:
+                if (a >> sh) <= (x >> sh) <= (b >> sh):
+                    if sh and ("n", env.field.to_bytes(v, sh)) not in reader:
+                        top = sh + env.step >= env.bits
+                        return "%s-tier-term-absent%s" % (
+                            "top" if top else "coarse",
+                            "(step-does-not-divide-width)" if env.bits % env.step else "")
+    except Exception:
+        return None
+    return None
 
 
 def report_range(acc, env, start, end, se, ee, path, kind, what, direct_ok=None):
@@ -993,6 +1041,8 @@ def task_wide(t):
     try:
         A = alphabet(cfg, seed)
         AN = [None] + A
+        if family == "tiers" and sl == 0:
+            index_level(acc, env)
         if family.startswith("main") and sl == 0:
             index_level(acc, env)
             for v in A:
@@ -1016,6 +1066,11 @@ def task_wide(t):
                         paths = ("docs",) if (se or ee) else ("docs", "search")
                     elif family == "main_docs":
                         paths = ("docs",)
+                    elif family == "tiers":
+                        # every start<=end pair (+ unbounded ends), inclusive
+                        if inverted or se or ee:
+                            continue
+                        paths = ("docs",)
                     else:
                         if inverted or kind == "dt" or (a is None and b is None):
                             continue
@@ -1028,6 +1083,10 @@ def task_wide(t):
                     if n % nsl != sl:
                         continue
                     direct_ok = None
+                    if family == "tiers":
+                        acc.count("range_queries_tiers_family")
+                        if uses_partial_top_tier(env, a, b, se, ee):
+                            acc.count("range_queries_answered_from_a_partial_top_tier")
                     for path in paths:
                         acc.count("evaluations")
                         acc.count("range_queries_alphabet")
@@ -1052,6 +1111,19 @@ def task_wide(t):
     finally:
         env.close()
     return acc.result()
+
+
+def uses_partial_top_tier(env, start, end, se, ee):
+    """vacuity evidence: the decomposition of this interval contains a piece
+    at the coarsest tier and that tier is a partial one (shift_step does not
+    divide the bit width)"""
+    if not env.step or env.bits % env.step == 0:
+        return False
+    try:
+        top = (env.bits - 1) // env.step * env.step
+        return any(sh == top for _, _, sh in tier_pieces(env, start, end, se, ee))
+    except Exception:
+        return False
 
 
 def domain_checks(acc, env):
@@ -1235,6 +1307,7 @@ def run(ctx):
             for sl in range(NSL[fam]):
                 heavy.append(("e2e8", cfg, step, ixname, fam, NSL[fam], sl, seed))
     wide_plan = {}
+    tiers_plan = {}
     for cfg in usable:
         kind, bits, signed = CFGS[cfg]
         if quick:
@@ -1253,11 +1326,17 @@ def run(ctx):
             for step in pst:
                 for sl in range(3):
                     heavy.append(("wide", cfg, step, "parser", not quick, 3, sl, seed))
+            # every other precision step (thorough runs them all as "main")
+            tst = [step for step in range(1, 9) if step not in st]
+            tiers_plan[cfg] = tst
+            for step in tst:
+                heavy.append(("wide", cfg, step, "tiers", False, 1, 0, seed))
     # heavy tasks first so the pool stays busy until the end
     ctx.extra["configurations"] = usable
     ctx.extra["alphabet_sizes"] = dict((c, len(alphabet(c, seed))) for c in usable)
     ctx.extra["end_to_end_8bit"] = [list(x[:3]) + [list(x[3])] for x in e2e]
     ctx.extra["alphabet_shift_steps"] = wide_plan
+    ctx.extra["tiers_family_shift_steps"] = tiers_plan
     ctx.rule = (
         "pure: split_ranges for every 0<=start<=end<=255 x step 1..8 and every ordered pair of a sortable boundary "
         "alphabet (2^k-1, 2^k, 2^k+1, top-2^k ...) for 16/32/64 bits; tiered_ranges for every (start, end, startexcl, "
@@ -1270,7 +1349,12 @@ def run(ctx):
         "boundary alphabet (+None) x 4 exclusivity combinations (start>end beyond 2 alphabet positions: inclusive "
         "only, thorough only) via docs_for_query, the inclusive ones also via search(limit=None); the query parser "
         "(quick: pairs within 3 alphabet positions, unbounded ends, domain extremes; thorough: all start<=end); "
-        "Term per value; lexicon / column / sortedby round trips; out-of-domain values in 5 contexts. Enumerated "
+        "Term per value; lexicon / column / sortedby round trips; out-of-domain values in 5 contexts. tiers family "
+        "(quick; thorough runs every step in the main family): for every width / number type and EVERY remaining "
+        "shift_step of 1..8 - so also the steps 3, 5, 6, 7 that do not divide the bit width and end in a partial "
+        "coarsest tier - every start<=end pair of the alphabet (+None) inclusive via docs_for_query on a real "
+        "two-segment index, plus the lexicon / column / sortedby round trips (sortable_terms must stop at the "
+        "first coarse term for every step). Enumerated "
         "without repetition; a range case is non-trivial when the expected result is neither empty nor everything")
     ctx.assumptions = [
         "oracle: Python comparison of the original values; a document whose value is a zero of the opposite sign "
@@ -1288,6 +1372,10 @@ def run(ctx):
     if ctx.counters.get("pure_multi_tier", 0) < 1000:
         raise core.HarnessError("vacuous: tiered decomposition used more than one tier in only %d pure cases"
                                 % ctx.counters.get("pure_multi_tier", 0))
+    if quick and any(tiers_plan.values()) and \
+            ctx.counters.get("range_queries_answered_from_a_partial_top_tier", 0) < 1000:
+        raise core.HarnessError("vacuous: only %d range queries of the tiers family were answered from a partial top tier"
+                                % ctx.counters.get("range_queries_answered_from_a_partial_top_tier", 0))
     if ctx.counters.get("domain_cases", 0) < 50 or ctx.counters.get("range_queries_8bit", 0) < 1000:
         raise core.HarnessError("vacuous: too few domain / range cases ran")
 
